@@ -36,7 +36,8 @@ def one_run(sys_seed, np_seed, niter, opts, kind, tmp):
     test_set = None
     if opts['test_set']:
         rs = np.random.RandomState(sys_seed)
-        xt = {str(v): rs.rand(6) * (v.get_domain()[1] - v.get_domain()[0]) + v.get_domain()[0] for v in system.inputs()}
+        nt = 1200 if opts['test_set'] == 'large' else 6      # a large test set must be treated like a small one (no subsampling from the global stream)
+        xt = {str(v): rs.rand(nt) * (v.get_domain()[1] - v.get_domain()[0]) + v.get_domain()[0] for v in system.inputs()}
         yt = system.predict(xt, use_model='best', normalized_inputs=False)
         test_set = (xt, {k: np.asarray(v) for k, v in yt.items()})
     sink = io.StringIO()
@@ -51,7 +52,7 @@ def one_run(sys_seed, np_seed, niter, opts, kind, tmp):
     try:
         with contextlib.redirect_stdout(sink), contextlib.redirect_stderr(sink):
             system.fit(max_iter=niter, num_refine=12, max_tol=-1.0, test_set=test_set, save_interval=opts['save_interval'],
-                       plot_interval=opts['plot_interval'])
+                       plot_interval=opts['plot_interval'], start_test_check=1)      # the test set is evaluated from the first iteration on
     finally:
         logging.disable(logging.CRITICAL)
     fp = rng_fingerprint()
@@ -69,7 +70,7 @@ def run(ctx: Ctx):
     shutil.rmtree(tmp, ignore_errors=True)
     tmp.mkdir(parents=True, exist_ok=True)
     ctx.rule = ('for each system (feed-forward chains with module-level models, and a feedback loop) and numpy seed: one run of fit() without any '
-                'monitoring, then runs over the product {test set given / not} x {save_interval 0, 2} x {plot_interval 0, 1} x {root_dir set / '
+                'monitoring, then runs over the product {test set given / not (plus one run with a 1200-sample test set)} x {save_interval 0, 2} x {plot_interval 0, 1} x {root_dir set / '
                 'not} x {no logging, stdout, log file} (quick: a random third of the 48 combinations per system; thorough: all); compared: digest '
                 'of index sets, weights, stored data, costs, domains and history, refinement choices, the position of the global random stream '
                 'after training, and predictions; non-trivial = a combination that differs from the baseline in at least one option')
@@ -84,6 +85,8 @@ def run(ctx: Ctx):
             todo = combos[1:] if not ctx.quick else rng.sample(combos[1:], 13)
             if ctx.quick:     # always include the combinations that switch on every monitoring branch
                 todo += [c for c in combos if c['test_set'] and c['root_dir'] and c['plot_interval'] == 1 and c['log'] == 'none'][:2]
+            if kind == 'chain':      # one more combination per chain system: a test set of more than a thousand samples
+                todo = todo + [{'test_set': 'large', 'save_interval': 0, 'plot_interval': 0, 'root_dir': False, 'log': 'none'}]
             for opts in todo:
                 case = {'system_seed': sys_seed, 'kind': kind, 'numpy_seed': np_seed, 'iterations': niter, 'options': opts}
                 ctx.case(case, nontrivial=True, kind=kind)
